@@ -9,7 +9,9 @@
 //   - Manager.Get(h) for every probe host h, the request path (real filters WithExtraRequestInfo +
 //     WithUpstreamInfo) for every probe host, WrapGetConfigForClient for every SNI, SNIVerifyOptions for every host,
 //   - the real admission plug-in's verdict (Validate) for every object written to the lister.
-// Judge : the Lean predicates of KG.Spec.Names (invB / stepB / tlsSpec / verifySpec / mirrorB / servedB) are
+//   - the raw key map after EVERY mutating manager call the handler makes (the controller is given the real
+//     manager behind a recording wrapper): the states a concurrent request / handshake can observe mid-event,
+// Judge : the Lean predicates of KG.Spec.Names (invB / stepB / midB / tlsSpec / verifySpec / mirrorB / servedB) are
 //         evaluated by the driver on the OBSERVED states (method C10.judge).
 // Diff  : the Lean model (C10.run) must produce exactly the same observations.
 package main
@@ -110,6 +112,9 @@ type Obs struct {
 	Requeue bool            `json:"requeue"`
 	Admit   bool            `json:"admitted"`
 	State   State           `json:"state"`
+	// the raw key map (key, pointer index) after EVERY mutating manager call of this step, in order: what a
+	// concurrent Get can observe while the handler is running
+	Mid [][][]interface{} `json:"mid"`
 	Get     []int           `json:"get"`
 	Req     []int           `json:"req"`
 	TLS     [][]interface{} `json:"tls"`
@@ -177,6 +182,30 @@ func mkObj(name string, sp *Spec, rv int) *proxyv1alpha1.UpstreamCluster {
 	return o
 }
 
+// recordingManager is the clusters.Manager handed to the controller: the real manager, with a hook after every
+// mutating call. Reads (Get) and everything else go straight to the real manager.
+type recordingManager struct {
+	clusters.Manager
+	after func()
+}
+
+func (r *recordingManager) AddWithKey(k string, c *clusters.ClusterInfo) {
+	r.Manager.AddWithKey(k, c)
+	r.after()
+}
+func (r *recordingManager) Add(c *clusters.ClusterInfo) {
+	r.Manager.Add(c)
+	r.after()
+}
+func (r *recordingManager) Delete(k string) {
+	r.Manager.Delete(k)
+	r.after()
+}
+func (r *recordingManager) DeleteWithStop(k string) {
+	r.Manager.DeleteWithStop(k)
+	r.after()
+}
+
 type fakeConn struct{ net.Conn }
 
 func (fakeConn) LocalAddr() net.Addr {
@@ -201,7 +230,9 @@ type execResult struct {
 // execute runs the history on the real controller.
 func execute(cs Case) (res execResult) {
 	indexer := cache.NewIndexer(cache.MetaNamespaceKeyFunc, cache.Indexers{})
-	ctl := controllers.VerifC10NewController(indexer)
+	real := clusters.NewManager()
+	rec := &recordingManager{Manager: real, after: func() {}}
+	ctl := controllers.VerifC10NewController(indexer, rec)
 	defer ctl.VerifC10Stop()
 	plugin := upstreamclusteradmission.VerifC10NewPlugin(proxylisters.NewUpstreamClusterLister(indexer))
 	objIfaces := admission.NewObjectInterfacesFromScheme(admScheme)
@@ -234,7 +265,7 @@ func execute(cs Case) (res execResult) {
 			captured, isProxy = info.UpstreamCluster, info.IsProxyRequest
 		}
 	})
-	chain := filters.WithExtraRequestInfo(filters.WithUpstreamInfo(terminal, ctl.Manager, codecs),
+	chain := filters.WithExtraRequestInfo(filters.WithUpstreamInfo(terminal, real, codecs),
 		&request.ExtraRequestInfoFactory{LongRunningFunc: func(*http.Request, *apirequest.RequestInfo) bool { return false }}, codecs)
 	probes := make([]string, len(cs.Probes))
 	reqs := make([]*http.Request, len(cs.Probes))
@@ -263,6 +294,17 @@ func execute(cs Case) (res execResult) {
 		name := rig.UnHex(st.Name)
 		var o Obs
 		o.Admit = true
+		o.Mid = [][][]interface{}{}
+		rec.after = func() {
+			keys := clusters.VerifC10Keys(real)
+			sort.Strings(keys)
+			snap := [][]interface{}{}
+			for _, k := range keys {
+				ci, _ := clusters.VerifC10Raw(real, k)
+				snap = append(snap, []interface{}{rig.Hex(k), idx(ci)})
+			}
+			o.Mid = append(o.Mid, snap)
+		}
 		msg, panicked := rig.Recover(func() {
 			switch st.K {
 			case "set":
@@ -330,11 +372,12 @@ func execute(cs Case) (res execResult) {
 		res.Settled = append(res.Settled, settledOK && st.K == "sync" && len(pending) == 0)
 
 		// ---- observe
-		keys := clusters.VerifC10Keys(ctl.Manager)
+		rec.after = func() {}
+		keys := clusters.VerifC10Keys(real)
 		sort.Strings(keys)
 		o.State.Keys = [][]interface{}{}
 		for _, k := range keys {
-			ci, _ := clusters.VerifC10Raw(ctl.Manager, k)
+			ci, _ := clusters.VerifC10Raw(real, k)
 			o.State.Keys = append(o.State.Keys, []interface{}{rig.Hex(k), idx(ci)})
 		}
 		o.State.Infos = []Info{}
@@ -481,7 +524,7 @@ type verdict struct {
 }
 
 func canonObs(o Obs) string {
-	return rig.Canon([]interface{}{o.Requeue, o.State, o.Get, o.Req, o.TLS, o.Verify})
+	return rig.Canon([]interface{}{o.Requeue, o.State, o.Mid, o.Get, o.Req, o.TLS, o.Verify})
 }
 
 func runCase(c *rig.Ctx, cs Case) (v verdict) {
@@ -544,6 +587,14 @@ func runCase(c *rig.Ctx, cs Case) (v verdict) {
 				k[1] = int(f)
 			}
 		}
+		for _, snap := range mo.Mid {
+			sort.Slice(snap, func(a, b int) bool { return snap[a][0].(string) < snap[b][0].(string) })
+			for _, k := range snap {
+				if f, ok := k[1].(float64); ok {
+					k[1] = int(f)
+				}
+			}
+		}
 		for _, t := range mo.TLS {
 			for x := 0; x < 2; x++ {
 				if f, ok := t[x].(float64); ok {
@@ -582,6 +633,8 @@ func explain(pred string) string {
 	switch pred {
 	case "inv":
 		return "a key resolves to a ClusterInfo that does not list it, or a server name of a served ClusterInfo does not resolve to it, or a served ClusterInfo is stopped"
+	case "mid-event":
+		return "in a state observable DURING the event (after one of the handler's manager writes) a name that resolves to the same ClusterInfo before and after the event does not resolve to it, or a name resolves to a ClusterInfo it resolves to neither before nor after"
 	case "frame":
 		return "the event changed a name held by another cluster (captured, removed, re-pointed, or that cluster was stopped/modified)"
 	case "refused-changed":
